@@ -1475,7 +1475,19 @@ def model_op(interp: Any, name: str, bound: V | None, args: list[V], kwargs: dic
             assert isinstance(t, TensorV)
             pv = new_param(s_, meth, TupleV(tuple(IntV(d) for d in t.shape[1:])), t.shape[0] if t.shape else Dim.const(1))
             s_.heap[pv.pid]["tensor"] = t
+            s_.heap[pv.pid]["op"] = ops[-1]
+            s_.heap[pv.pid]["operands"] = TupleV(tuple(operands), "list")
             yield pv, s_
+            return
+        if meth in ("node_inputs", "subgraph") and isinstance(bound, ParamV) and args:
+            h = st.heap.get(bound.pid, {})
+            if meth == "node_inputs":
+                if args[0] == h.get("op") and isinstance(h.get("operands"), TupleV):
+                    yield h["operands"], st
+                else:
+                    yield interp.unk("node_inputs of an unknown node"), st
+            else:
+                yield (args[0] if isinstance(args[0], ParamV) else interp.unk("subgraph of an unknown root")), st
             return
         yield interp.unk("TorchParameter." + meth), st
         return
